@@ -1491,7 +1491,7 @@ class Interp:
         if name == "into" and self.resolve_into and isinstance(recv, Struct):
             # value.into(): the loaded `impl From<S> for T` with S = the value's type (the target named by the let / turbofish when several exist)
             cands = [(t, fn) for (t, m), lst in self.prog.trait_methods.items() if m == "from" for tr, fn in lst
-                     if re.sub(r"<'\w+>|'\w+", "", tr.replace(" ", "")) in ("From<%s>" % recv.ty, "From<&%s>" % recv.ty)]
+                     if re.sub(r"\s+", "", re.sub(r"<\s*'\w+\s*>|'\w+", "", tr)) in ("From<%s>" % recv.ty, "From<&%s>" % recv.ty)]
             if len(cands) > 1 and self.call_type:
                 want = str(self.call_type).split("<")[0].split("::")[-1].strip()
                 cands = [c for c in cands if c[0] == want] or cands
